@@ -180,7 +180,7 @@ def gen_stdlib(out):
 
 
 def main():
-    out = ["(* GENERATED by translator/gen_tables.py from %s — do not edit *)" % REPO,
+    out = ["(* GENERATED by translator/gen_tables.py from the library's working tree — do not edit *)",
            "From Coq Require Import List NArith ZArith.",
            "From BS Require Import Base.Sexp Base.Types.",
            "Import ListNotations.",
